@@ -21,6 +21,7 @@ RULE = ("(a) replies: code x line list (1..6 lines drawn from empty, digit-leadi
         "line or a line with a metacharacter.")
 RULE += ("  " + "Also (round 8): the same Client object after a connection that died inside a reply decodes its next connection from scratch; the encoder leaves the caller's list of lines as it was (written twice: same bytes).")
 RULE += ("  " + 'Also (round 10): a foreign code on an INNER continuation line with the right code on the closing line is rejected (negative_inner); Server.response_writer fed replies of which one cannot be encoded in line 1, 2 or 3 (latin-1, ascii, lone surrogate): every reply write_response completed is decoded as such, in order (writer_emitted_vs_decoded).')
+RULE += ("  " + 'Also (round 11): lines with byte 255 in latin-1.')
 ASSUMPTIONS = ["lines contain no CR/LF (not carriable); comparison of text is modulo trailing whitespace as the statement allows",
                "the negative case uses a *terminating* line with a different code (a mismatch in the middle leaves the "
                "rest of that reply in the stream by construction of the rejecting decoder)"]
